@@ -43,7 +43,9 @@ VARIABLES files,    \* [Pages -> page]       page = [ex, broken, notes : Seq(not
           trash     \* ghost: [Pages -> the content a page had when the user last deleted it] (restored by RestorePage)
 vars == << files, db, hashes, nextId, wl, today, nuid, snap, steps, last, lastArg, trash >>
 
-NoHash == [ex |-> FALSE, broken |-> FALSE, notes |-> << <<"nohash">> >>]
+\* (a pseudo-note of the shape of a real one: TLC's simulator compares whole states and refuses to compare a record with a tuple)
+NoHash == [ex |-> FALSE, broken |-> FALSE,
+           notes |-> << [uid |-> 0, zid |-> << >>, ver |-> 0, kind |-> "nohash", prio |-> "", md |-> 0, ld |-> 0, gap |-> 1, nl |-> 1] >>]
 NoSnap == << >>
 
 ---------------------------------------------------------------------------
